@@ -13,6 +13,10 @@ coq/Num/OpsC09.v.  Everything not listed falls through to the base translator (f
       list (fields) of list (wavelengths) of (opd list, intensity list)
   `a ** 2` on a list (elementwise square), `np.mean(list)`
   `np.zeros((n, m))` -> n x m table of zeros; `tbl[i, j] = v` -> set2Z; `return tbl` as list2
+  opaque calls returning a pair (spec['opaque_pairs']): `vx, vy = self.optic.fields.get_vig_factor(Hx, Hy)`
+      -> two inputs `<dotted>().0`, `<dotted>().1`
+  opaque calls through a local alias of an object (`material = self.optic.image_surface.material_pre;
+      material.n(w)`): looked up in spec['opaque_calls'] under the full dotted name
 """
 import ast
 
@@ -80,6 +84,18 @@ class C09Kernel(Kernel):
 
     def call(self, node, env):
         dotted = self.dotted_of(node.func)
+        if dotted in self.spec.get('opaque_pairs', ()):
+            return V('tuple', items=[super().get_input(dotted + '().0'), super().get_input(dotted + '().1')])
+        if dotted and '.' in dotted:
+            parts = dotted.split('.')
+            for n in range(len(parts) - 1, 0, -1):
+                pre = '.'.join(parts[:n])
+                if pre in env and env[pre].kind == 'obj' and env[pre].path != pre:
+                    full = env[pre].path + '.' + '.'.join(parts[n:])
+                    if full in self.spec.get('opaque_calls', {}):
+                        key = full + '()'
+                        self.types.setdefault(key, self.spec['opaque_calls'][full])
+                        return super().get_input(key)
         if dotted in ('np.mean', 'numpy.mean') and len(node.args) == 1 and not node.keywords:
             v = self.expr(node.args[0], env)
             if v.kind == 'list':
